@@ -1170,6 +1170,11 @@ class HttpPayloadParser:
                 self._eof_pending = False
                 return PayloadState.PAYLOAD_COMPLETE, b""
 
+        # All input has been consumed: a pause requested while feeding it has
+        # nothing left to hold back (the transport is paused by the protocol).
+        # Leaving the flag set would stash the *next* read and report pending
+        # input that nobody resumes, stalling the body forever.
+        self._paused = False
         return PayloadState.PAYLOAD_NEEDS_INPUT, b""
 
 
